@@ -38,4 +38,26 @@ CHECKS = {
              'result against the dense meaning of the key and that writes touch only the addressed entries.',
         note='Trusted: TLC, the projection (indexer.data.to_array()), integer flows/dyadic group compositions (exact). Caches are never constrained in trace '
              'validation (only observable results), so refactoring the caches raises no alarm.'),
+    'C01': dict(
+        engine='Streams', category='model_checking',
+        technique='TLA+ spec of stream material/sharing semantics (Streams.tla) model-checked by TLC to a depth bound; TLC-dumped states, witness paths and random histories executed on real Stream/MultiStream objects of three property packages; TLC validates conservation clauses on every step',
+        text='TLC explores all sequences (depth 4-5) of mix_from / split_to / separate_out / copy_flow / empty / flow edits / phase changes over 3 streams, 2 chemicals, '
+             '2 packages (one listing the chemicals in another order) and checks well-formedness and sharing consistency; every dumped state is rebuilt on real streams and '
+             'random conservation operations (any inlet multiset incl. the receiver itself, scalar and per-chemical splits, removal/exclusion copies, scaling) are judged by '
+             'TLC: per-chemical totals, non-negativity, phase-class conservation, min-pressure rule, frame condition; random 30-step histories over 5 streams / 3 packages likewise.',
+        note='Trusted: TLC; the projection (imol data rows, T, P, phases, object identity of data / thermal-condition / phase containers, confirmed behaviourally); integer flows so that comparison is exact. Where the property leaves the outcome open (phase of mixed material, temperature after an energy balance) the spec clauses leave it open.'),
+    'C12': dict(
+        engine='Streams', category='model_checking',
+        technique='TLA+ spec (Streams.tla: AsMulti/AsSingle/Relabel, live phase views, save/restore) model-checked by TLC with the action property RepresentationKeepsContents; executions of real streams validated by TLC',
+        text='TLC explores all sequences (depth 4-6) of phases/phase assignment, reduce_phases, as_stream, equilibrium getters, phase-view writes and save/restore over phase sets drawn from '
+             's/l/g/S/L and checks that every representation change keeps totals, T, P; the real objects are driven from TLC-dumped states, along witness paths and random histories, and TLC checks '
+             'totals, T, P, that each phase keeps its material (other-case label only when the exact one is absent), that phase sub-streams are live views, and that restore reproduces the snapshot.',
+        note='Trusted: TLC; the projection (imol data rows, T, P, phases, object identity of data / thermal-condition / phase containers, confirmed behaviourally); integer flows so that comparison is exact. Where the property leaves the outcome open (phase of mixed material, temperature after an energy balance) the spec clauses leave it open.'),
+    'C13': dict(
+        engine='Streams', category='model_checking',
+        technique='TLA+ spec of container sharing (canonical container ids per stream) model-checked by TLC with the action property IndependentUntouched; sharing of the real objects projected from identity and confirmed behaviourally; TLC validates every step',
+        text='TLC explores all sequences (depth 4-5) of construct / copy / pickle / copy_like / proxy / flow_proxy / link_with(flags) / unlink interleaved with writes and checks that a write never '
+             'reaches a stream sharing no container with the written one; on the real objects TLC checks after every such call which containers are shared (exactly the advertised ones), that '
+             'values are equal where the property says so (flows per phase, phases, T, P, price and characterisation factors through pickling), and a write-through probe confirms the sharing ids.',
+        note='Trusted: TLC; the projection (imol data rows, T, P, phases, object identity of data / thermal-condition / phase containers, confirmed behaviourally); integer flows so that comparison is exact. Where the property leaves the outcome open (phase of mixed material, temperature after an energy balance) the spec clauses leave it open.'),
 }
